@@ -380,8 +380,19 @@ def load_twin():
     return mod
 
 
+_fresh_results = {}
+
+
 def fresh(kind, term_args, swap, qen, key=0):
-    """The getter `kind` computed from empty caches for the given terminal/settings."""
+    """The getter `kind` computed from empty caches for the given terminal/settings (by a twin loaded for this
+    computation; the result for one (getter, terminal, settings) is computed once per driver process)."""
+    memo_key = json.dumps([kind, term_args[0], list(term_args[1]), bool(swap), bool(qen), key], sort_keys=True)
+    if memo_key not in _fresh_results:
+        _fresh_results[memo_key] = _fresh(kind, term_args, swap, qen, key)
+    return list(_fresh_results[memo_key])
+
+
+def _fresh(kind, term_args, swap, qen, key=0):
     env, size = term_args
     T = load_twin()
     t = Term(env, size)
@@ -1192,17 +1203,13 @@ def run_inval(case):
 # ---------------------------------------------------------------- hand-over schedules
 
 
-class HandLock(_RLOCK_T):
-    """A lock object of the hand-over schedules: a REAL re-entrant lock (a subclass of the type
-    `utils._rlock_type` tests for).  A controlled thread parks when it is about to acquire from
-    outside ("acq"), when it has acquired ("held") and when it is about to release completely
-    ("rel").  It never blocks under the scheduler: a pick that finds the lock taken leaves the
-    thread parked at "acq" — on THIS object, whatever the module global names by then."""
+class _HandLockProtocol:
+    """A lock object of the hand-over schedules.  A controlled thread parks when it is about to
+    acquire from outside ("acq"), when it has acquired ("held") and when it is about to release
+    completely ("rel").  It never blocks under the scheduler: a pick that finds the lock taken
+    leaves the thread parked at "acq" — on THIS object, whatever the module global names by then."""
 
-    def __new__(cls, coop, name):
-        return super().__new__(cls)
-
-    def __init__(self, coop, name):
+    def _setup(self, coop, name):
         self.coop, self.name = coop, name
         self._depth = {}
 
@@ -1210,16 +1217,16 @@ class HandLock(_RLOCK_T):
         me = threading.get_ident()
         i = self.coop.me()
         if i is None or self.coop.free or self._depth.get(me):
-            got = super().acquire(blocking, timeout)
+            got = self._raw_acquire(blocking, timeout)
             if got:
                 self._depth[me] = self._depth.get(me, 0) + 1
             return got
         self.coop.point("acq")
         while True:
             if self.coop.free:
-                super().acquire()
+                self._raw_acquire(True, -1)
                 break
-            if super().acquire(False):
+            if self._raw_acquire(False, -1):
                 break
             self.coop.point("acq")
         self._depth[me] = 1
@@ -1231,7 +1238,7 @@ class HandLock(_RLOCK_T):
         if self.coop.me() is not None and self._depth.get(me) == 1:
             self.coop.point("rel")
         self._depth[me] -= 1
-        super().release()
+        self._raw_release()
 
     def __enter__(self):
         self.acquire()
@@ -1239,6 +1246,37 @@ class HandLock(_RLOCK_T):
 
     def __exit__(self, *exc):
         self.release()
+
+
+class HandLock(_HandLockProtocol, _RLOCK_T):
+    """the import-time lock: a REAL `threading.RLock` (a subclass instance of the type
+    `utils._rlock_type` tests for)"""
+
+    def __new__(cls, coop, name):
+        return _RLOCK_T.__new__(cls)
+
+    def __init__(self, coop, name):
+        self._setup(coop, name)
+
+    def _raw_acquire(self, blocking, timeout):
+        return _RLOCK_T.acquire(self, blocking, timeout)
+
+    def _raw_release(self):
+        _RLOCK_T.release(self)
+
+
+class SharedLock(_HandLockProtocol):
+    """the shared array's lock: re-entrant, and — like `multiprocessing.RLock` — NOT a `threading.RLock`"""
+
+    def __init__(self, coop, name):
+        self._setup(coop, name)
+        self._lock = threading.RLock()
+
+    def _raw_acquire(self, blocking, timeout):
+        return self._lock.acquire(blocking, timeout)
+
+    def _raw_release(self):
+        self._lock.release()
 
 
 class HandList(list):
@@ -1290,7 +1328,7 @@ def run_hand(case):
 
     def code(v):
         v = enc_cs(v) if not isinstance(v, list) else v
-        return 0 if v == [0] else 1 if v == ref[0] else 2 if v == ref[1] else 3
+        return 1 if v == ref[0] else 2 if v == ref[1] else 0 if v == [0] else 3
 
     def set_flag(b):
         if kind == "swap":
@@ -1313,7 +1351,7 @@ def run_hand(case):
     def array_stub(typecode, init):
         coop.point("copy")  # about to copy the cache entry into the shared array
         a = SharedStub(list(init))
-        a.coop, a.lock = coop, HandLock(coop, "new")
+        a.coop, a.lock = coop, SharedLock(coop, "new")
         shared.append(a)
         coop.point("copied")  # the array exists; the rebinding of the cache global is ahead
         return a
@@ -1375,7 +1413,7 @@ def run_hand(case):
         ncomp = counters["cs"] - n0
         flag = get_flag()
         cache = list(U._cell_size_cache)
-        ccode = 0 if cache == [0] * 4 else code([1] + cache[2:]) if cache[:2] == size[:2] else 3
+        ccode = 0 if cache == [0] * 4 else 3 if cache[:2] != size[:2] else code([0] if 0 in cache[2:] else [1] + cache[2:])
         is_shared = int(isinstance(U._cell_size_cache, SharedStub))
         lock_shared = int(bool(shared) and U._cell_size_lock is shared[0].lock)
         # a call made AFTER all threads have finished
@@ -1393,7 +1431,7 @@ def run_hand(case):
     install(U, term, counters)
     return {"flag": flag, "cache": ccode, "shared": is_shared, "lockshared": lock_shared, "rets": rets, "ncomp": ncomp,
             "after": after, "fresh": fr, "drained": drained, "stuck": stuck, "errors": errs, "trace": coop.trace,
-            "distinct": int(ref[0] != ref[1] and [0] not in ref[1:]), "raw_cache": cache, "ref": ref,
+            "distinct": int(ref[0] != ref[1] and ref[1] != [0] and (kind != "swap" or ref[0] != [0])), "raw_cache": cache, "ref": ref,
             "starts": len(started), "arrays": len(shared)}
 
 
